@@ -157,10 +157,10 @@ let run_fuel = nat_of_int 20000
 let run_case id main files stddir =
   match FrontModel.parse_main (env_of files stddir) (bytes_of_hex main) with
   | FrontModel.POk (body, _, _, _) ->
-      (* the flat shell model of the C01 theorems on the model's own script (defined for function-free programs; loops included) *)
+      (* the flat shell model of the C01/C02 theorems on the model's own script: loops, and the script's functions as the call oracle *)
       let flat = (match BashConv.emit_bash body with
           | Transpile.TOk (_, st) ->
-              (match FlatLoop.lrun (fun _ _ _ -> None) [] (nat_of_int 60000) false [] [] st.BashConv.b_code with
+              (match FlatLoop.lrun (FlatLoop.call_of st.BashConv.b_code (nat_of_int 40)) [] (nat_of_int 60000) false [] [] st.BashConv.b_code with
                | Some (_, out) -> " flat=" ^ hex_of_bytes out
                | None -> "")
           | _ -> "") in
